@@ -282,6 +282,13 @@ def harness_flags():
     return [f for f in vlib.HARNESS_FLAGS if f not in ("-O1", "-g")] + ["-O0", "-g1"]
 
 
+def harness_name(src):
+    """cache name of the harness binary; VERIF_HARNESS_TAG keeps scratch-copy runs (TAPKEE_REPO=...) from evicting the
+    cached build of the real tree"""
+    import os
+    return os.path.splitext(os.path.basename(src))[0] + os.environ.get("VERIF_HARNESS_TAG", "")
+
+
 def hdr_hash():
     import hashlib
     import os
@@ -313,7 +320,7 @@ def classify(io, v):
 def generic_correspond(ctx, harness_src, exe, prop, plan_fn, build_line, label, what_text, min_points, batch=40, budget_s=60):
     import os
     import time
-    binary, log = ctx.build_harness(harness_src, extra=["-DV0810_HASH=" + hdr_hash()], flags=harness_flags())
+    binary, log = ctx.build_harness(harness_src, name=harness_name(harness_src), extra=["-DV0810_HASH=" + hdr_hash()], flags=harness_flags())
     if not binary:
         ctx.broken("harness-build", "harness " + harness_src, "harness does not compile against the repository: " + log[-1500:])
         return
